@@ -213,7 +213,7 @@ func (m *KVMon[K, V]) after(touched K, mutated bool) {
 		return
 	}
 	n := m.n()
-	full := n <= 64 || m.calls%16 == 0
+	full := n <= 64 || (n <= 1000 && m.calls%16 == 0) || m.calls%64 == 0
 	if m.Map || m.Bidi {
 		if sz := m.A.M.Size(); sz != n {
 			c.Fail("size", "", "%s.Size() = %d, abstract map has %d live keys", m.A.Name, sz, n)
